@@ -35,6 +35,13 @@ pub fn generate(run_seed: u64) -> Scenario {
             }
         }
     }
+    // artefact-level corner: group elements that are the identity inside Option fields (the
+    // degree-bound part of a non-hiding commitment to the zero polynomial)
+    let mut polys = polys;
+    if g.r.gen_bool(0.2) {
+        polys[0].shape = Shape::Zero;
+        polys[0].hiding = None;
+    }
     let mut env = g.env(n_ops, false);
     env.io_chunk = g.r.gen::<u64>() | 1;
     env.io_eintr = g.r.gen_range(2..6);
@@ -237,6 +244,24 @@ pub fn run<S: Scheme>(scn: &Scenario, log: &EventLog) -> RunResult {
     for (i, c) in sess.prover.comms.iter().enumerate().take(2) {
         io_check(&mut ctx, "commitment", c.commitment(), 10 + i as u64);
     }
+    // structure the trait exposes must survive the round trip: presence of the degree-bound part
+    {
+        use ark_poly_commit::PCCommitment;
+        for c in sess.prover.comms.iter() {
+            for cm in [Compress::Yes, Compress::No] {
+                for v in [Validate::Yes, Validate::No] {
+                    match reload(c.commitment(), cm, v) {
+                        Some(y) => {
+                            if y.has_degree_bound() != c.commitment().has_degree_bound() {
+                                ctx.res.violations.push(viol(scn, "io-contract", "roundtrip", "commitment", format!("commitment {}: has_degree_bound() is {} before and {} after a round trip (compress={} validate={})", c.label(), c.commitment().has_degree_bound(), y.has_degree_bound(), cm == Compress::Yes, v == Validate::Yes)));
+                            }
+                        }
+                        None => ctx.res.violations.push(viol(scn, "io-contract", "roundtrip", "commitment", "the prover's commitment does not reload".into())),
+                    }
+                }
+            }
+        }
+    }
     for (i, s) in sess.prover.states.iter().enumerate().take(2) {
         io_check(&mut ctx, "commitment-state", s, 20 + i as u64);
     }
@@ -293,6 +318,31 @@ pub fn run<S: Scheme>(scn: &Scenario, log: &EventLog) -> RunResult {
                 if d1.accepted() != d2.accepted() {
                     res.violations.push(viol(scn, "io-contract", "decision", "universal-params", format!("decision on the {which} claim differs between keys trimmed from the original universal parameters ({}) and from reloaded ones ({}) {}", d1.name(), d2.name(), w2)));
                 }
+            }
+        }
+    }
+
+    // (5b) the commitments as the prover made them (never serialized unless the prover restarted)
+    // against the ones the verifier received through store and channel
+    for (i, claim) in claims.iter().enumerate() {
+        let mut tampered = claim.clone();
+        let tamper_ok = match &mut tampered {
+            Claim::Open { values, .. } => values.get_mut(0).map(|v| *v += S::F::one()).is_some(),
+            Claim::Batch { evals, .. } | Claim::Lc { evals, .. } => evals.values_mut().next().map(|v| *v += S::F::one()).is_some(),
+        };
+        for (which, cl) in [("honest", claim), ("tampered", &tampered)] {
+            if which == "tampered" && !tamper_ok {
+                continue;
+            }
+            let pre = pre_state::<S>(&sess, &claims, i);
+            let (mut sp1, mut sp2) = (pre.fork(), pre.fork());
+            let (mut r1, mut r2) = (SimRng::new(scn.seed, "c12-dec1", 1), SimRng::new(scn.seed, "c12-dec1", 1));
+            let (d1, _) = Sess::<S>::check_with(&sess.verifier.vk, &sess.prover.comms, cl, &mut sp1, &mut r1, 0);
+            let (d2, w2) = Sess::<S>::check_with(&sess.verifier.vk, &sess.verifier.comms, cl, &mut sp2, &mut r2, 0);
+            res.stats.checks += 2;
+            res.stats.fire("commitments-pristine-vs-received");
+            if d1.accepted() != d2.accepted() {
+                res.violations.push(viol(scn, "io-contract", "decision", "commitment", format!("decision on the {which} claim differs between the commitments as made ({}) and as received after serialization ({}) {}", d1.name(), d2.name(), w2)));
             }
         }
     }
